@@ -204,6 +204,13 @@ def run(ctx, model_ok):
                 ctx.count("no-collection-in-log")
         if len(ctx.samples) < 8 and multibyte and rng.random() < 0.01:
             ctx.sample({"text": c["text"], "ui": [l["ui"] if l else None for l in r["lines"]]})
+    if model_ok:
+        # the model's tokenizers on the same multi-byte lines (token spans are byte offsets; case-mapped copies are translated back)
+        lt = []
+        for c in cases[:ctx.n(1500, 30000)]:
+            for ln in wire.split_lines(c["text"])[:3]:
+                lt.append(([], c["lang"], ln))
+        wire.lex_tie(ctx, lt)
     if model_ok and replay:
         sub = replay if not ctx.quick() else replay[:6000]
         ans = C.run_model([f"ui\t{b.hex()}\t{ops}" for (_, _, b, ops, _) in sub])
